@@ -207,7 +207,16 @@ for _frag in ('registry_mb2_sized', 'registry_mb2_dst', 'registry_header', 'regi
     except ModuleNotFoundError:
         continue
     _merge(_m.HARNESSES)
-for _h, _extra in {'k_module_iter': ['C03']}.items():
+FORCE_QUICK = {'k_efi_mmap_withheld', 'k_get_tag_first_match', 'k_tags_walk', 'k_tagiter_clone_history', 'k_module_iter',
+               'k_efi_iter_wellformed', 'k_efi_iter_any', 'k_new_boxed_layout', 'k_mb2hdr_find_header_small'}
+_extra_props = {'k_module_iter': ['C03']}
+# typed getters select by the kinds' ID numbers: the ID / conversion-table harnesses also serve C04 (and C11 in the header crate)
+for _h, _spec in list(HARNESSES.items()):
+    if 'C20' in _spec.get('props', []) and _spec['crate'] == 'multiboot2':
+        _extra_props.setdefault(_h, []).append('C04')
+    if 'C20' in _spec.get('props', []) and _spec['crate'] == 'multiboot2-header':
+        _extra_props.setdefault(_h, []).append('C11')
+for _h, _extra in _extra_props.items():
     if _h in HARNESSES:
         HARNESSES[_h].setdefault('props', [])
         for _p in _extra:
@@ -215,6 +224,13 @@ for _h, _extra in {'k_module_iter': ['C03']}.items():
                 HARNESSES[_h]['props'].append(_p)
             if _h not in PROPS[_p]['k_quick'] and _h not in PROPS[_p]['k_thorough']:
                 PROPS[_p]['k_quick'].append(_h)
+
+for _pid, _p in PROPS.items():
+    for _h in list(_p.get('k_thorough', [])):
+        if _h in FORCE_QUICK:
+            _p['k_thorough'].remove(_h)
+            if _h not in _p['k_quick']:
+                _p['k_quick'].append(_h)
 
 PRELUDE_TRUST = [
     'contracts/verus/prelude.rs: pointer-extent model (assume_specification of <[T]>::as_ptr, <*const T>::{add,sub,cast,align_offset}, NonNull::{new,as_ptr}, cast_const/cast_mut; external_body deref_raw, read_raw, addr_of_ref, slice::from_raw_parts, bytes_from_raw_parts, vslice, vslice_from, mem::size_of_val, controlled_panic)',
